@@ -42,8 +42,13 @@ def run_one(mod, case, timeout):
     t0 = time.time()
     signal.signal(signal.SIGALRM, _alarm)
     signal.alarm(int(timeout))
+    from fv import contracts
+    n_h = len(contracts.HARNESS_ERRORS)
     try:
         res = mod.run_case(case)
+        if len(contracts.HARNESS_ERRORS) > n_h:
+            res = {"status": "inconclusive", "reason": "monitor-error", "trace": contracts.HARNESS_ERRORS[-1],
+                   "findings": res.get("findings", []), "counters": res.get("counters", {})}
     except CaseTimeout:
         res = {"status": "inconclusive", "reason": "case-timeout"}
     except MemoryError:
